@@ -142,10 +142,24 @@ func (x *Ctx) enumeratePaths(fn *ssa.Function, V, E ssa.Value, vlo, vhi *big.Int
 			walk(frame{f.b.Succs[0], f.b, f.st, env, f.conds, f.taken, f.depth + 1})
 		case *ssa.If:
 			cond := resolve(env, t.Cond)
+			// a flag set on the way (`neg := false; if … { neg = true }`) is a constant on this path
+			known, knownVal := false, false
+			{
+				c, inv := cond, false
+				if u, ok := c.(*ssa.UnOp); ok && u.Op == token.NOT {
+					c, inv = resolve(env, u.X), true
+				}
+				if k, ok := c.(*ssa.Const); ok && k.Value != nil && k.Value.Kind() == constant.Bool {
+					known, knownVal = true, constant.BoolVal(k.Value) != inv
+				}
+			}
 			for k := 0; k < 2; k++ {
 				st := f.st
 				feasible := true
 				tk := k == 0
+				if known && tk != knownVal {
+					continue
+				}
 				// the same condition value decided earlier on this path fixes the branch
 				for i, c := range f.conds {
 					if c == cond && f.taken[i] != tk {
